@@ -154,6 +154,17 @@ Theorem C04_class_implied : forall (F Cx : Type) (r : raw F Cx),
 Proof. exact class_loaded. Qed.
 Print Assumptions C04_class_implied.
 
+(* ---- load(path, dim=d): an explicit dimension not above that of the content gives the same class (it is a lower bound: no
+   element kind is dropped, the object is never demoted); leaving it out is the plain load.  The max(...) and the value
+   standing for "absent" are regenerated from mesh.py *)
+Theorem C04_load_dim_never_demotes : forall (F Cx : Type) (r : raw F Cx) (d : Z),
+  (forall e, In e (rE r) -> edge_valid (zlen (rV r)) e = true) -> d <= dim_raw r ->
+  class_of_loaded_dim (Some d) r = Some (if negb (isnil (rC r)) then "VolumeMesh" else if negb (isnil (rF r)) then "SurfaceMesh"
+                                         else if negb (isnil (rE r)) then "PolyLine" else "PointCloud")%string
+  /\ class_of_loaded_dim None r = class_of_loaded r.
+Proof. exact class_loaded_dim. Qed.
+Print Assumptions C04_load_dim_never_demotes.
+
 (* ---- corollary of the round trips: element kinds a format cannot express are absent from what its files give back *)
 Theorem C04_vocabulary : forall (F Cx : Type) (m : mesh F Cx) sw,
   (rE (vocab_xyz m) = [] /\ rF (vocab_xyz m) = [] /\ rC (vocab_xyz m) = [])
